@@ -93,6 +93,11 @@ func idListed(s *inproc.Server, stream, id string) bool {
 	return false
 }
 
+// kickStateTimeout bounds the waits for sessions that lal tears down in goroutines of its own (GB28181 pub, relay
+// pull): the verdict is the state the stat API / the origin's socket shows after it, healthy teardown takes
+// milliseconds.
+const kickStateTimeout = 10 * time.Second
+
 // The kick oracle judges three promises separately:
 //   - disconnected: the client of the kicked session sees the end of its connection.  If it does not within
 //     DeliverTimeout the verdict rests on the state of the connection alone: lal never closed its end although
@@ -206,7 +211,7 @@ func runKick(c KickCase) *pbt.Violation {
 			_, _ = tc.Write([]byte{0, 12})
 			time.Sleep(5 * time.Millisecond)
 			ended = func() bool {
-				_ = tc.SetReadDeadline(time.Now().Add(lalclient.DeliverTimeout))
+				_ = tc.SetReadDeadline(time.Now().Add(kickStateTimeout))
 				buf := make([]byte, 256)
 				for {
 					if _, err := tc.Read(buf); err != nil {
@@ -217,7 +222,7 @@ func runKick(c KickCase) *pbt.Violation {
 		}
 		// the session is over when it is no longer the stream's publisher (lal's own goroutine removes it)
 		handlerDone = func() bool {
-			deadline := time.Now().Add(lalclient.DeliverTimeout)
+			deadline := time.Now().Add(kickStateTimeout)
 			for time.Now().Before(deadline) {
 				if !idListed(s, stream, id) {
 					return true
@@ -259,9 +264,9 @@ func runKick(c KickCase) *pbt.Violation {
 			}
 			time.Sleep(2 * time.Millisecond)
 		}
-		ended = func() bool { return oc.WaitPeerClose(lalclient.DeliverTimeout) }
+		ended = func() bool { return oc.WaitPeerClose(kickStateTimeout) }
 		handlerDone = func() bool {
-			deadline := time.Now().Add(lalclient.DeliverTimeout)
+			deadline := time.Now().Add(kickStateTimeout)
 			for time.Now().Before(deadline) {
 				if !idListed(s, stream, id) {
 					return true
@@ -302,19 +307,19 @@ func runKick(c KickCase) *pbt.Violation {
 		if conn != nil && conn.PeerGone() {
 			return inconclusive("kick-eof-not-seen") // lal closed its end; the client-side reader is late
 		}
-		return pbt.V("kick/session-not-disconnected", "the %s session %s was kicked (API answered success) but %v later lal has not closed its end of the connection (still listed: %v)",
-			c.Kind, id, lalclient.DeliverTimeout, idListed(s, stream, id))
+		return pbt.V("kick/session-not-disconnected", "the %s session %s was kicked (API answered success) but lal has not closed its end of the connection within the bound (still listed: %v)",
+			c.Kind, id, idListed(s, stream, id))
 	}
 	// promise 2: no longer a session
 	if !handlerDone() {
 		if ended != nil {
 			// the connection is closed but the session never left the stream
 			if idListed(s, stream, id) {
-				return pbt.V("kick/session-still-listed", "the %s session %s was kicked and its connection closed, but %v later the stat API still lists it", c.Kind, id, lalclient.DeliverTimeout)
+				return pbt.V("kick/session-still-listed", "the %s session %s was kicked and its connection closed, but the stat API still lists it after the bound", c.Kind, id)
 			}
 			return inconclusive("kick-handler-not-done")
 		}
-		return pbt.V("kick/session-still-listed", "the %s session %s was kicked (API answered success) but %v later the stat API still lists it", c.Kind, id, lalclient.DeliverTimeout)
+		return pbt.V("kick/session-still-listed", "the %s session %s was kicked (API answered success) but %v later the stat API still lists it", c.Kind, id, kickStateTimeout)
 	}
 	if idListed(s, stream, id) {
 		return pbt.V("kick/session-still-listed", "the %s session %s was kicked, its connection is closed and lal's handler has returned, but the stat API still lists it", c.Kind, id)
@@ -360,7 +365,7 @@ type BlacklistCase struct {
 func genBlacklist(t *rapid.T) BlacklistCase {
 	c := BlacklistCase{Blocked: rapid.IntRange(2, 250).Draw(t, "blocked"), Target: rapid.IntRange(0, 3).Draw(t, "target"), Probes: rapid.IntRange(1, 4).Draw(t, "probes")}
 	// the expiry leg needs real time (about 4.5 s): a third of the cases in thorough, about one per shard in quick
-	waitOneIn := 20
+	waitOneIn := 30
 	if pbt.Thorough() {
 		waitOneIn = 3
 	}
@@ -713,6 +718,6 @@ func classifyBlHist(c BlHistCase) (bool, []string) {
 func TestIpBlacklistHistory(t *testing.T) {
 	pbt.Run(t, pbt.Spec[BlHistCase]{
 		ID: "C14", Name: "ip-blacklist-history", Gen: genBlHist, Run: runBlHist, Classify: classifyBlHist,
-		Quick: 4, Thorough: 30,
+		Quick: 3, Thorough: 30,
 	})
 }
